@@ -302,12 +302,28 @@ def job(args):
         from .c04 import make_solve_world
         for nm, term, want in (('None', None, 'TypeError'), ('str', 'term', 'TypeError'), ('dict', {}, 'TypeError'),
                                ('object', AObj('object'), 'TypeError'), ('function', OpaqueFn('f'), 'TypeError'),
-                               ('3-tuple', 'T3', 'error'), ('(vector, matrix)', 'SWAP', 'TypeError')):
+                               ('3-tuple', 'T3', 'error'), ('(vector, matrix)', 'SWAP', 'TypeError'),
+                               ('python float', Rat.atom(('x',)), 'TypeError'), ('flat python list of numbers', 'LIST', 'TypeError'),
+                               ('nested python list', 'LIST2', 'TypeError'), ('CellVariable object', 'CV', 'TypeError'),
+                               ('numpy scalar', 'NPS', 'TypeError'), ('0-d array', 'ARR0', 'TypeError'), ('3-d array', 'ARR3', 'TypeError')):
             ws, phi, terms, hook = make_solve_world(sm, cls)
             if term == 'T3':
                 term = (terms['M1'], terms['R1'], terms['R2'])
             elif term == 'SWAP':
                 term = (terms['R1'], terms['M1'])
+            elif term == 'LIST':
+                term = [Rat.atom(('lst', k)) for k in range(3)]
+            elif term == 'LIST2':
+                term = [[Rat.atom(('lst', k, j)) for j in range(2)] for k in range(2)]
+            elif term == 'CV':
+                term = ws.cell_variable('cvterm')
+            elif term == 'NPS':
+                from ..interp import AForeign, NUMPY_SCALAR_ATTRS
+                term = AForeign('float64', NUMPY_SCALAR_ATTRS)
+            elif term == 'ARR0':
+                term = Box(const_arr((), ONE))
+            elif term == 'ARR3':
+                term = Box(const_arr((Rat.const(2), Rat.const(2), Rat.const(2)), ONE))
             try:
                 ws.call('pdesolver', 'solvePDE', phi, [terms['M1'], term], ws.ext)
                 ob('L7', 'pdesolver.solvePDE/unknown-term', False, f"{nm}: accepted", fi.loc())
